@@ -39,6 +39,10 @@ func init() {
 		NotDecided: "position arithmetic, deletion, TotalRows handling, equality with the reference value, batching independence — the behavioural core. This is a thin " +
 			"claim: a change that breaks R01a-c is almost certainly caught by the existing tests as well.",
 		Rules: []RuleDef{{ID: "R01", Statement: "sibling agreement of the block-application implementations", Run: runC01},
+			{ID: "R01f", Statement: "the leaf count only grows while a block is applied", Run: func(p *Program, r *Report) {
+				r.Rule("R01f", "LEAF-COUNT-MONOTONE: under Stump.Update, Pollard.Modify and MapPollard.Modify every store into a NumLeaves field is an increment of the value read from that field")
+				checkLeafCountMonotone(p, r, "R01f", []string{"(*Stump).Update", "(*Pollard).Modify", "(*MapPollard).Modify"})
+			}},
 			{ID: "R01e", Statement: "the forest grows per added leaf", Run: func(p *Program, r *Report) {
 				r.Rule("R01e", "GROW-PER-LEAF: the map forest's growth step (which sizes the forest for one more leaf) is reached on every iteration of the add phase's loop over the added leaves")
 				checkGrowPerLeaf(p, r, "R01e")
